@@ -93,7 +93,17 @@ def payload_forms(rnd):
     return forms
 
 
+HOSTILE_NAMES = ["it's", 'say "hi"', "back\\slash", "trailing\\", "close*/comment", "a b", "new\nline", "tab\tsep", "a.b", "tmpl${x}`", "émoji✓", "データ", "x=y?z", "'", "*/"]
+
+
+def rs_lit(s):
+    return s.replace("\\", "\\\\").replace('"', '\\"').replace("\n", "\\n").replace("\t", "\\t")
+
+
 def rand_event_name(rnd):
+    if rnd.random() < 0.12:
+        # characters Tauri rejects at run time but a string literal can hold: the listener must still subscribe to exactly this text
+        return rnd.choice(HOSTILE_NAMES)
     n = rnd.randint(1, 4)
     parts = []
     for _ in range(n):
@@ -118,9 +128,9 @@ def emit_fn(fname, placement, receiver, method, evname, form, is_async=False, re
     rlabel, rexpr, rparam = receiver
     flabel, setup, pexpr, fparam, _ = form
     if method == "emit_to":
-        call = '%s.emit_to("main", "%s", %s)' % (rexpr, evname, pexpr)
+        call = '%s.emit_to("main", "%s", %s)' % (rexpr, rs_lit(evname), pexpr)
     else:
-        call = '%s.emit("%s", %s)' % (rexpr, evname, pexpr)
+        call = '%s.emit("%s", %s)' % (rexpr, rs_lit(evname), pexpr)
     params = [rparam, "flag: bool", "n: usize"] + ([fparam] if fparam else [])
     needs_try = "?" in ptmpl
     needs_await = ".await" in ptmpl
